@@ -424,16 +424,38 @@ def _x8_points(run: Run) -> None:
     prep = next((f_ for f_ in pm.tree.body if isinstance(f_, ast.FunctionDef) and f_.name == "_prepare"), None)
     pcls = next((c_ for c_ in pm.tree.body if isinstance(c_, ast.ClassDef) and c_.name == "AppliedPoint"), None)
     run.require(pcls is not None, "AppliedPoint not found")
-    # the assumptions each system declares for its base scalars
+    # the assumptions each system declares for its base scalars: _generate_base_scalars EVALUATED (three Symbol(...) calls, a table-driven helper - whatever)
+    class _GenReader(PyReader):
+
+        def hook_call(self, n, env, fns):
+            name = (dotted(n.func) or "").split(".")[-1]
+            if name == "Symbol" and name not in self.functions:
+                kw_ = {k.arg: self.ev(k.value, env, fns) for k in n.keywords if k.arg}
+                for k in n.keywords:
+                    if k.arg is None:
+                        kw_.update(self.ev(k.value, env, fns))
+                return ("symbol", {k_: v_ for k_, v_ in kw_.items() if isinstance(v_, bool)})
+            return NotImplemented
+
+        def global_value(self, n):
+            d = dotted(n)
+            if d and (d.startswith("units.") or d in ("angle_type", "dimensionless")):
+                return ("dimension", d)
+            return super().global_value(n)
+
     declared = {}
     for c_ in [x for x in csm.tree.body if isinstance(x, ast.ClassDef) and x.name in CLASSES]:
         gen = next((f_ for f_ in c_.body if isinstance(f_, ast.FunctionDef) and f_.name == "_generate_base_scalars"), None)
         if gen is None:
             raise AnalysisError(f"C15/X8: {c_.name}._generate_base_scalars not found")
-        calls = [x for x in ast.walk(gen) if isinstance(x, ast.Call) and (dotted(x.func) or "").split(".")[-1] == "Symbol"]
-        if len(calls) != 3:
+        gr = _GenReader(csm.tree, "coordinate_systems.py", depth_limit=6)
+        try:
+            made = gr.call_def(gen, [], {}, {})
+        except Raised as r_:
+            raise AnalysisError(f"C15/X8: {c_.name}._generate_base_scalars raises {r_.exc}")
+        if not (isinstance(made, list) and len(made) == 3 and all(isinstance(x, tuple) and len(x) == 2 and x[0] == "symbol" for x in made)):
             raise AnalysisError(f"C15/X8: {c_.name}._generate_base_scalars does not create three symbols")
-        declared[CLASSES[c_.name]] = [{k.arg: k.value.value for k in call.keywords if isinstance(k.value, ast.Constant) and isinstance(k.value.value, bool)} for call in calls]
+        declared[CLASSES[c_.name]] = [x[1] for x in made]
 
     class _Scalar:
         def __init__(self, tag, k, flags):
